@@ -85,6 +85,10 @@ type Config struct {
 	BranchNoStart bool
 	// BranchAfterMark: no branching before the body calls Mark() (the set-up part runs under the default schedule only)
 	BranchAfterMark bool
+	// DelayBounding: every departure from the deterministic default scheduler (not only preemptions, also picking
+	// another than the first enabled thread when the running one blocks, and non-default data choices) costs one
+	// deviation (Emmi/Qadeer/Rakamaric delay bounding); keeps many-thread harnesses polynomial in the bound
+	DelayBounding bool
 }
 
 type opKind uint8
@@ -295,6 +299,7 @@ type alt struct {
 	t     *Thread
 	sub   int
 	timer *Timer
+	group []*Timer // timers expiring together (timely mode)
 	cost  Cost
 }
 
@@ -349,11 +354,22 @@ func (s *Sched) computeAlts() []alt {
 			return armed[i].id < armed[j].id
 		})
 		min := armed[0].deadline
+		// timely: all timers that are due at the earliest deadline expire together (one environment step);
+		// the order in which the woken threads then run is an ordinary scheduling choice
+		if !threadsEnabled {
+			var group []*Timer
+			for _, tm := range armed {
+				if tm.deadline == min {
+					group = append(group, tm)
+				}
+			}
+			alts = append(alts, alt{timer: group[0], group: group})
+		}
 		for _, tm := range armed {
-			timely := !threadsEnabled && tm.deadline == min
-			if timely {
-				alts = append(alts, alt{timer: tm})
-			} else if s.cfg.Arbitrary || (s.cfg.ArbitraryQuiescent && !threadsEnabled) {
+			if !threadsEnabled && tm.deadline == min {
+				continue
+			}
+			if s.cfg.Arbitrary || (s.cfg.ArbitraryQuiescent && !threadsEnabled) {
 				alts = append(alts, alt{timer: tm, cost: CostTimer})
 			}
 		}
@@ -395,6 +411,13 @@ func (s *Sched) loop() {
 			p := Point{N: len(alts), Chosen: choice, Costs: make([]Cost, len(alts))}
 			for i, a := range alts {
 				p.Costs[i] = a.cost
+				if s.cfg.DelayBounding && i > 0 && a.cost == 0 {
+					if a.t != nil && a.t.op != nil && a.t.op.kind == opChoose {
+						p.Costs[i] = CostFault
+					} else {
+						p.Costs[i] = CostPreempt
+					}
+				}
 			}
 			if s.cfg.BranchAfterMark && !s.marked {
 				p.Focus = make([]bool, len(alts))
@@ -429,7 +452,15 @@ func (s *Sched) loop() {
 			s.steplog = append(s.steplog, fmt.Sprintf("t=%v %s", s.now, s.descAlt(a)))
 		}
 		if a.timer != nil {
-			s.fire(a.timer)
+			if a.group != nil {
+				for _, tm := range a.group {
+					if tm.armed {
+						s.fire(tm)
+					}
+				}
+			} else {
+				s.fire(a.timer)
+			}
 			continue
 		}
 		t := a.t
